@@ -22,6 +22,7 @@ from .. import AnalysisError, anf
 from ..anf import Rat, sym
 from ..guards import (G, TRUE, FALSE, g_and, g_not, g_or, g_equiv, g_implies, g_sat, compare, canon_sign, OPS)
 from ..gvn import Frame, Obj, PW, Vec, cases_of, veq, mk_pw, Unsupported, vkey
+from ..intervals import single_atom
 from ..mutation import MutationAnalysis
 from ..ref import ref
 from .common import RuleCtx, _short, split_at_loop, stored_names, range_args, judge
@@ -109,18 +110,15 @@ def _global_cost_loop(rc: RuleCtx):
     else:
         res.violation("U3", mod, fi.name, fi.node, "the per-segment error vector does not have len(reduced) - 1 entries",
                       ast.unparse(zeros[0].value) if zeros else "?", "np.zeros(len(reduced) - 1)", construct="segment vector length")
-    # loop range and carried left/right
-    ra = range_args(loop)
-    lo = fr.expr(ra[0], env) if ra and len(ra) == 2 else None
-    hi = fr.expr(ra[1], env) if ra and len(ra) == 2 else None
-    if not (isinstance(lo, Rat) and lo.is_const() == 1 and isinstance(hi, Rat) and hi.equals(sym("R"))):
-        res.violation("U1", mod, fi.name, loop, "the segment loop does not visit breakpoints 1..len(reduced)-1", ast.unparse(loop.iter),
-                      "range(1, len(reduced))", construct="segment loop range")
-        return
-    ivar = loop.target.id
-    i = ev.symbol(ivar)
+    # loop header and carried left / right (roles, any equivalent loop shape)
+    from .common import bind_loop
+    b = bind_loop(ev, fr, loop, env)
+    if b is None:
+        raise AnalysisError(f"{fi.qualname}: segment loop header {ast.unparse(loop.iter)!r} has no recognised shape")
     benv = dict(env)
-    benv[ivar] = i
+    benv.update(b.bindings)
+    ivar = next(iter(b.idx.symbols()))
+    i = b.idx
     carried = [n for n in stored_names(ast.Module(body=loop.body, type_ignores=[])) if n in env]
     # role: the running left end = the carried variable initialised with reduced[0]
     lnames = [n for n in carried if isinstance(env.get(n), Rat) and env[n].equals(_at(red, C(0)))]
@@ -136,12 +134,20 @@ def _global_cost_loop(rc: RuleCtx):
         out = ev.eval_loop_body(fi, loop, benv)
     except Unsupported as e:
         raise AnalysisError(f"{fi.qualname}: loop body not modelled: {e}")
-    right = _at(red, i)
-    if isinstance(out.env.get(lname), Rat) and out.env[lname].equals(right):
-        res.ok("U1", f"{fi.qualname}:chain", "consecutive segments (left, right) = (reduced[i-1], reduced[i])")
+    # the right end of the current segment = the value the left end takes for the next iteration
+    right = out.env.get(lname)
+    e_idx = None
+    if isinstance(right, Rat):
+        ra_ = single_atom(right)
+        if ra_ is not None and ra_.name == "at" and ra_.args[0].equals(red):
+            e_idx = ra_.args[1]
+    chain_ok = e_idx is not None and (e_idx - i).is_const() is not None and (b.lo + (e_idx - i)).is_const() == 1 and (b.hi + (e_idx - i)).equals(sym("R"))
+    if chain_ok:
+        res.ok("U1", f"{fi.qualname}:chain", "consecutive segments (left, right) = (reduced[k-1], reduced[k]) for k = 1..len(reduced)-1")
     else:
-        res.violation("U1", mod, fi.name, loop, "segments are not the consecutive breakpoint pairs", str(out.env.get(lname)), "left <- reduced[i]",
-                      construct="segment chain")
+        res.violation("U1", mod, fi.name, loop, "segments are not the consecutive breakpoint pairs (reduced[k-1], reduced[k]), k = 1..len(reduced)-1",
+                      f"left' = {_short(right, 80)} over positions {b.lo}..{b.hi}", "left <- reduced[k], k = 1..len(reduced)-1", construct="segment chain")
+        return
     key = Vec([left, right])
     stores = [e for e in out.events if e.kind == "store" and e.target == "cache"]
     reads_ok = True
@@ -193,7 +199,7 @@ def _global_cost_loop(rc: RuleCtx):
     rd_ok = False
     for e in seg_stores:
         idx, v = e.args
-        want_idx = i - C(1)
+        want_idx = e_idx - C(1)
         if isinstance(idx, Rat) and idx.equals(want_idx) and e.guard.kind == "true":
             vals = [x for _g, x in cases_of(v)]
             if all(_is_cache_item(x, cache, key) or any(veq(x, c) for _gg, c in value_cases) for x in vals):
@@ -334,7 +340,7 @@ def _uses_outside_key(v, red: Rat, i: Rat, right: Rat) -> bool:
         # replace every occurrence of at(reduced, i) by a fresh symbol and look for leftovers
         names = set()
         for a in x.all_atoms():
-            if a.kind == "fn" and a.name == "at" and a.args[0].equals(red) and a.args[1].equals(i):
+            if a.kind == "fn" and a.name == "at" and Rat.from_atom(a).equals(right):
                 continue
             if a.kind == "sym" and a.name in ("reduced", next(iter(i.symbols())) if i.symbols() else ""):
                 names.add(a.name)
@@ -345,7 +351,7 @@ def _uses_outside_key(v, red: Rat, i: Rat, right: Rat) -> bool:
                     if a.kind == "sym" and a.name in names:
                         return True
                     if a.kind == "fn":
-                        if a.name == "at" and a.args[0].equals(red) and a.args[1].equals(i):
+                        if a.name == "at" and Rat.from_atom(a).equals(right):
                             continue
                         if any(has_outside(z) for z in a.args):
                             return True
@@ -463,10 +469,13 @@ def _global_rmse(rc: RuleCtx):
     fi, ev, env, pre, loop, post, fr = _segment_loop(rc, "evaluation.compute_global_rmse", None)
     mod = fi.module
     pts, red, cache = env["points"], env["reduced"], env["cache"]
-    ivar = loop.target.id
-    i = ev.symbol(ivar)
+    from .common import bind_loop
+    b = bind_loop(ev, fr, loop, env)
+    if b is None:
+        raise AnalysisError(f"{fi.qualname}: segment loop header has no recognised shape")
+    i = b.idx
     benv = dict(env)
-    benv[ivar] = i
+    benv.update(b.bindings)
     carried = [nme for nme in stored_names(ast.Module(body=loop.body, type_ignores=[])) if nme in env]
     lnames = [n for n in carried if isinstance(env.get(n), Rat) and env[n].equals(_at(red, C(0)))]
     if len(lnames) != 1:
@@ -477,7 +486,16 @@ def _global_rmse(rc: RuleCtx):
         benv[nme] = ev.symbol(nme)
     left = benv[lname]
     out = ev.eval_loop_body(fi, loop, benv)
-    right = _at(red, i)
+    right = out.env.get(lname)
+    e_idx = None
+    if isinstance(right, Rat):
+        ra_ = single_atom(right)
+        if ra_ is not None and ra_.name == "at" and ra_.args[0].equals(red):
+            e_idx = ra_.args[1]
+    if e_idx is None or (e_idx - i).is_const() is None or (b.lo + (e_idx - i)).is_const() != 1 or not (b.hi + (e_idx - i)).equals(sym("R")):
+        res.violation("U6", mod, fi.name, loop, "the global RMSE does not run over the consecutive breakpoint pairs", _short(right, 80), "left <- reduced[k], k = 1..len(reduced)-1",
+                      construct="rmse segment chain")
+        return
     key = Vec([left, right])
     xs = anf.opaque("slice", pts.items[0], left, right + C(1), array=True)
     ys = anf.opaque("slice", pts.items[1], left, right + C(1), array=True)
@@ -493,7 +511,7 @@ def _global_rmse(rc: RuleCtx):
             for g, x in cases_of(v):
                 if isinstance(x, Rat) and x.equals(want):
                     good = True
-    if good and isinstance(out.env.get(lname), Rat) and out.env[lname].equals(right):
+    if good:
         res.ok("U6", f"{fi.qualname}:segments", "cache[(left,right)] == SSE of points[left:right+1] against its endpoint line; consecutive segments")
     else:
         res.violation("U6", mod, fi.name, loop, "the cached segment error of the global RMSE is not the SSE against the segment's endpoint line",
@@ -526,14 +544,12 @@ def _mip(rc: RuleCtx):
     env = {"points": pts, "reduced": red}
     fr = Frame(ev, fi, 0)
     fr.block(pre, env, TRUE)
-    ra = range_args(loop)
-    lo = fr.expr(ra[0], env) if ra and len(ra) == 2 else None
-    hi = fr.expr(ra[1], env) if ra and len(ra) == 2 else None
-    ok = isinstance(lo, Rat) and lo.is_const() == 1 and isinstance(hi, Rat) and hi.equals(sym("R") - C(1))
-    ivar = loop.target.id
+    from .common import bind_loop
+    b = bind_loop(ev, fr, loop, env)
+    if b is None:
+        raise AnalysisError("evaluation.mip: loop header has no recognised shape")
     benv = dict(env)
-    i = ev.symbol(ivar)
-    benv[ivar] = i
+    benv.update(b.bindings)
     out = ev.eval_loop_body(fi, loop, benv)
     sts = [e for e in out.events if e.kind == "store"]
     dicts = [v for v in env.values() if isinstance(v, Obj) and v.tag == "dict"]
@@ -546,21 +562,30 @@ def _mip(rc: RuleCtx):
     want_fin = rmse_call(red)
     fins = [v for v in env.values() if isinstance(v, Rat) and v.equals(want_fin)]
     fin = fins[0] if fins else None
-    dele = anf.opaque("np.delete", red, i, array=True)
-    want_ref = rmse_call(dele)
-    good = ok and isinstance(fin, Rat) and fin.equals(want_fin)
+    good = isinstance(fin, Rat)
     body_ok = False
     for e in sts:
         idx, v = e.args
-        if isinstance(idx, Rat) and idx.equals(i - C(1)) and isinstance(v, Rat) and v.equals(want_ref - want_fin):
+        if not (isinstance(idx, Rat) and isinstance(v, Rat)):
+            continue
+        # the deleted breakpoint d = (store index + 1) must range over 1..len(reduced)-2, and the stored value is
+        # rmse(reduced without d) - rmse(reduced)
+        d = idx + C(1)
+        off = (d - b.idx).is_const()
+        if off is None or (b.lo + C(off)).is_const() != 1 or not (b.hi + C(off)).equals(sym("R") - C(1)):
+            continue
+        want_ref = None
+        for a in v.all_atoms():
+            if a.kind == "fn" and a.name == "np.delete" and len(a.args) >= 2 and a.args[0].equals(red) and a.args[1].equals(d):
+                want_ref = rmse_call(Rat.from_atom(a))
+        if want_ref is not None and v.equals(want_ref - want_fin):
             body_ok = True
     if good and body_ok:
-        res.ok("U6", f"{fi.qualname}:improvement", "ip[i-1] = rmse(reduced without i) - rmse(reduced) for i = 1..len(reduced)-2")
+        res.ok("U6", f"{fi.qualname}:improvement", "ip[d-1] = rmse(reduced without d) - rmse(reduced) for every interior breakpoint d = 1..len(reduced)-2")
     else:
-        res.violation("U6", mod, fi.name, loop, "the per-breakpoint improvement is not rmse(reduced without i) - rmse(reduced) over the interior breakpoints",
-                      f"range {ast.unparse(loop.iter)}; stores {[(_short(e.args[0], 40), _short(e.args[1], 120)) for e in sts]}",
-                      "ip[i-1] = compute_global_rmse(points, np.delete(reduced, i)) - compute_global_rmse(points, reduced), i in 1..len(reduced)-2",
-                      construct="mip improvement")
+        res.violation("U6", mod, fi.name, loop, "the per-breakpoint improvement is not rmse(reduced without d) - rmse(reduced) over the interior breakpoints d = 1..len(reduced)-2",
+                      f"header {ast.unparse(loop.iter)}; stores {[(_short(e.args[0], 40), _short(e.args[1], 120)) for e in sts]}",
+                      "ip[d-1] = compute_global_rmse(points, np.delete(reduced, d)) - compute_global_rmse(points, reduced)", construct="mip improvement")
     fr2 = Frame(ev, fi, 0)
     ipname = sts[0].target if sts else "ip"
     ipv = ev.symbol("ip", True)
